@@ -244,8 +244,8 @@ PROPS = {
     },
     "C07": {
         "manifest": {
-            "text": "The interpreter model is a total Lean function (structural recursion, so termination is kernel-checked) in which every Go run-time check is an explicit panic outcome; Lean theorems: one snapshot per instruction at most (step bound), OP_CHECKSIG cannot hit the no-transaction dereference when a context is present, the numeric/stack combinators and shifts never fail with a panic for any operand (incl. the empty operand and every shift count), preparation yields an error value or a prepared run. Tied to the code by a differential check of outcomes {ok, err, panic, crash} over arbitrary byte strings as both scripts, all single flags and flag pairs plus sampled 16-bit flag sets, eight kinds of transaction context (none, valid, tx without previous output, nil tx, nil input element, previous output without script, nothing, locking script only), indices -1 / len / 2^30, with and without a debugger, and memory-limited child processes for count-driven allocations.",
-            "note": "Partial: the global theorem 'execute never returns the panic outcome' is not yet proved (it needs the parser/runtime conditional-depth invariant and a per-handler case analysis); Go run-time failures outside the modelled checks (stack exhaustion, memory exhaustion by OP_NUM2BIN to gigabytes) are exercised, not proved. Trusted: Lean kernel + standard axioms, harness/generators/comparer, driver glue.",
+            "text": "The interpreter model is a total Lean function (structural recursion, so termination is kernel-checked) in which every Go run-time check is an explicit panic outcome. Main theorem execute_never_panics: for every crypto oracle, flag set, optional transaction context and pair of scripts, execute ends in accept or reject - no panic site of the model (transaction-requiring opcode without a transaction, element with a non-table length, empty saved stack of P2SH) is reachable; proved from the parser's guarantees (parseAux_Parsed), the invariant that the run-time conditional depth never exceeds the parser's nesting count (executeOpcode_depth, via per-handler lemmas for all opcodes), OP_RETURN at depth 0 ending the script (return_at_top_not_ok) and OP_HASH160 failing on an empty stack. Further theorems: step bound (one snapshot per instruction), shifts total for every operand and count. Tied to the code by a differential check of outcomes {ok, err, panic, crash} over arbitrary byte strings as both scripts, all single flags and flag pairs plus sampled 16-bit flag sets, eight kinds of transaction context (none, valid, tx without previous output, nil tx, nil input element, previous output without script, nothing, locking script only), indices -1 / len / 2^30, with and without a debugger, and memory-limited child processes for count-driven allocations.",
+            "note": "The theorem is about the model's panic sites (the Go run-time checks the model makes explicit); that these are all the places the Go code can panic is what the correspondence checks (arbitrary byte strings, crash-isolated). Go run-time failures outside the modelled checks (stack exhaustion, memory exhaustion by OP_NUM2BIN to gigabytes) are exercised, not proved. Option validation before execution (nil tx, nil input, missing scripts) is checked by correspondence only. Trusted: Lean kernel + standard axioms, harness/generators/comparer, driver glue.",
         },
         "generators": ["C07"],
         "thorough_seeds": 2,
